@@ -49,3 +49,6 @@ from spec import xcheck_cases as _xc  # noqa: E402
 class _x_iadd_attr:
     self_shape = Obj(_xc.XBox, dict(items=_L))
     params = dict(v=Int(0, 5))
+_case("x_max_short_slice", items=ListOf(Int(0, 6), max_len=7), i=Int(-1, 3))
+_ROWS = ListOf(ListOf(Int(0, 3), max_len=3), max_len=3)
+_case("x_generator", rows=_ROWS, extra=_ROWS, k=Int(0, 3), w=Int(0, 4)).generator_as_list = True
